@@ -19,6 +19,7 @@ import (
 	"encoding/json"
 	"flag"
 	"fmt"
+	"math"
 	"os"
 	"sort"
 	"strings"
@@ -419,6 +420,13 @@ func (b jsonBatch) toBatch() c04lib.Batch {
 	return out
 }
 
+func f32bitsN(f float32) string {
+	if f != f {
+		return "nan"
+	}
+	return fmt.Sprintf("%08x", math.Float32bits(f))
+}
+
 type flatQuery struct {
 	Prop   string
 	Vec    []float32
@@ -488,7 +496,8 @@ func candidates(sim *c04lib.Sim, cfg c04lib.FlatCfg, d c04lib.Dump, ownNodes, li
 		if dist != dist {
 			nan++
 		}
-		out = append(out, c04lib.Cand{Id: id, Node: liveNodes[id], Dist: dist, Pass: q.pass(doc)})
+		ref, tol, hasRef := st.RefDist(q.Vec, v, code)
+		out = append(out, c04lib.Cand{Id: id, Node: liveNodes[id], Dist: dist, Pass: q.pass(doc), Ref: ref, Tol: tol, HasRef: hasRef})
 	}
 	return out, st, nan
 }
@@ -791,6 +800,17 @@ func (rn *runner) evalQuery(sim *c04lib.Sim, nodes map[uuid.UUID]uint64, c c04li
 	}
 	if emit {
 		o.Emit("search", c04lib.SearchLine(q.Limit, cands), canon, true)
+		// formula lines: the hybrid expression generated from flat.go, evaluated by the driver on the reported distance
+		for i, h := range hits {
+			if err != nil || h.Dist == nil || i >= 4 {
+				break
+			}
+			wf := "-"
+			if q.Weight != nil {
+				wf = fmt.Sprintf("%08x", math.Float32bits(*q.Weight))
+			}
+			o.Emit("hyb", fmt.Sprintf("hyb flat %s %08x", wf, math.Float32bits(*h.Dist)), f32bitsN(h.Hybrid), true)
+		}
 		o.Stats[fmt.Sprintf("search:%s/%s", c.Eff().Metric, c.Eff().Quant)]++
 		if st.Trained {
 			o.Stats["search-trained"]++
